@@ -29,12 +29,27 @@ func init() {
 		},
 		Assumptions: []string{"integer arithmetic on symbolic values is mathematical (no overflow)", "version strings up to 8 bytes"},
 	}
+	properties["C19"] = &property{
+		ID: "C19", Level: "model_checking",
+		Harnesses: []harness{
+			{Name: "gsxC19LoadProgram", Pkg: "cmd/go-critic", Quick: map[string]int{"strlen": 6}, MustReach: []string{"invalid version", "valid version"}},
+			{Name: "gsxC19LoadProgram", Pkg: "cmd/gocritic", Quick: map[string]int{"strlen": 6}, MustReach: []string{"invalid version", "valid version"}},
+			{Name: "gsxC19CtorError", Pkg: "cmd/go-critic", Quick: map[string]int{}, MustReach: []string{"initCheckers returned"}},
+			{Name: "gsxC19CtorError", Pkg: "cmd/gocritic", Quick: map[string]int{}, MustReach: []string{"initCheckers returned"}},
+			{Name: "gsxC19AnalyzerPasses", Pkg: "checkers/analyzer", Quick: map[string]int{"strlen": 5}, MustReach: []string{"invalid configuration", "valid configuration"}},
+		},
+		Assumptions: []string{"package loading is modelled as succeeding with an empty package list (pkgload stub)", "version strings up to 6 bytes", "3 consecutive analyzer passes"},
+	}
 	properties["C16"] = &property{
 		ID: "C16", Level: "model_checking",
 		Harnesses: []harness{
 			{Name: "gsxC16ShortenLocation", Pkg: "cmd/go-critic", Quick: map[string]int{"strlen": 12}, Thorough: map[string]int{"strlen": 12},
 				MustReach: []string{"shortened"}},
 			{Name: "gsxC16ShortenLocation", Pkg: "cmd/gocritic", Quick: map[string]int{"strlen": 12}, MustReach: []string{"shortened"}},
+			{Name: "gsxC16CheckPackage", Pkg: "cmd/go-critic", Solver: "z3", Quick: map[string]int{}, MustReach: []string{"checked"}},
+			{Name: "gsxC16CheckPackage", Pkg: "cmd/gocritic", Solver: "z3", Quick: map[string]int{}, MustReach: []string{"checked"}},
+			{Name: "gsxC16RootInsidePath", Pkg: "cmd/go-critic", Quick: map[string]int{"strlen": 24}, MustReach: []string{"shortened"}},
+			{Name: "gsxC16RootInsidePath", Pkg: "cmd/gocritic", Quick: map[string]int{"strlen": 24}, MustReach: []string{"shortened"}},
 		},
 		Assumptions: []string{
 			"integer arithmetic on symbolic values is mathematical (no overflow)",
